@@ -359,8 +359,8 @@ theorem safeShape_of_sites (tbl : List AliasRow) (op : OpK) :
       modeOf_copies (k := (fallbackSite k p opts).1) (c := (fallbackSite k p opts).2) h'.1
     simp only [safeShape, hfb, safeOpts_of_sites tbl op k opts h'.2, Bool.and_self]
   | .owned s, h => by
-    simp only [sitesOf] at h
-    simp only [safeShape, safeShape_of_sites tbl op s h]
+    simp only [sitesOf, List.all_cons] at h
+    simp only [safeShape, safeShape_of_sites tbl op s (and_true_split h).2]
 theorem safeOpts_of_sites (tbl : List AliasRow) (op : OpK) (k : Kind) :
     (opts : List Shape) → (sitesOfOpts k opts).all (siteOk tbl op) = true → safeOpts (modeOf tbl op) k opts = true
   | [], _ => by simp [safeOpts]
@@ -547,7 +547,7 @@ theorem reachList_sound (h : Heap) : ∀ (n : Nat) (i : Item) (b : Nat), b ∈ r
           | refl => exact base
           | step _ hk' ih' => exact Reach.step ih' hk'
 
-/-- a former explicit counterexample, now positive (typedpy commit 95931f6): constructing with
+/-- a former explicit counterexample, now positive (typedpy commit 89fd84a): constructing with
     `OneOf[Array[Integer], …]` no longer keeps the caller's list (cell 1) — clearing that list afterwards leaves the new
     instance as it was -/
 theorem oneOf_keeps_a_copy_today :
@@ -790,6 +790,19 @@ theorem firstFit_spec (h : Heap) (i : Item) : ∀ (opts : List Shape),
         simp only [List.getElem?_cons_succ] at e
         exact ih.2 s e
 
+/-- a fixed delegation hands the value to THAT option if the value fits it, and to no option otherwise (the `misfit`
+    site of that option's category: `fallbackSite`) -/
+theorem fixed_pick_spec (n : Nat) (opts : List Shape) (h : Heap) (i : Item) :
+    (pickIdx (.fixed n) opts h i = n ∧ ∃ s, opts[n]? = some s ∧ fits s h i = true) ∨
+    pickIdx (.fixed n) opts h i = opts.length := by
+  simp only [pickIdx]
+  cases ho : opts[n]? with
+  | none => exact Or.inr rfl
+  | some s =>
+    by_cases hf : fits s h i = true
+    · exact Or.inl ⟨by simp only [if_pos hf], s, rfl, hf⟩
+    · exact Or.inr (by simp only [if_neg hf])
+
 /-- `AnyOf[Array[Integer], Map[String, Array[Integer]], String]` with ALL its options, as the element of an
     Array, as a Map value and on its own, plus `Optional[Map | Array]`: admitted under construction, the Serializer
     and the Deserializer — whichever option each value takes, the statement holds -/
@@ -817,7 +830,7 @@ def oneOpts : Shape :=
 
 /-- non-vacuity, kernel-evaluated on today's table: the elements of ONE list take different options of
     `OneOf[Array, Map, String]` (the list the first, the dict the second, the string the third); under construction
-    today's OneOf keeps none of the caller's containers (each option stores its own copy), on a plain Structure as well
+    today's OneOf keeps none of the caller's containers (it stores a private deep copy), on a plain Structure as well
     as owned by an ImmutableStructure -/
 theorem wrapN_owned_example :
     (match transfer (modeOf Generated.aliasing .construct) 9 (.keyed .root [("xs", .coll .array oneOpts)]) hetHeap (.ref 0) with
